@@ -111,7 +111,16 @@ func (l *listener) listenLoop() {
 					return
 				}
 				internalLogger.info("accepted a new stream")
+				// take the stream's reference on the session only while the listener still holds its own one: Close() drops
+				// that one under l.mu after raising closed, and an Add racing with the returning Wait is a WaitGroup misuse panic
+				l.mu.Lock()
+				if atomic.LoadUint32(&l.closed) == 1 {
+					l.mu.Unlock()
+					_ = stream.Close()
+					return
+				}
 				conn := newStreamWrapper(stream, stream.LocalAddr(), stream.RemoteAddr(), wg)
+				l.mu.Unlock()
 				select {
 				case <-l.closeCh:
 					// nobody will accept this conn any more, release its reference on the session
